@@ -527,3 +527,10 @@ Fixpoint slash_free (s : string) : bool :=
   | EmptyString => true
   | String c r => negb (Ascii.eqb c "/") && slash_free r
   end.
+(* every member name of the hierarchy is free of "/" *)
+Fixpoint names_slash_free (t : jnode) : bool :=
+  match t with
+  | JA _ => true
+  | JG _ ch => (fix go (l : list (string * jnode)) : bool :=
+                  match l with [] => true | (n, c) :: r => slash_free n && names_slash_free c && go r end) ch
+  end.
